@@ -89,7 +89,8 @@ func VerifH_C12_early() {
 
 // The client's writes fail from any byte 0..70 on (in a HEADERS frame, in the
 // DATA of the second request, or between frames) while the server stays
-// connected and silent: all three requests end, their callers can take them back, the socket is closed and both
+// connected and silent (the second request's body buffered or streamed): all
+// three requests end, their callers can take them back, the socket is closed and both
 // loops exit without the peer having to hang up.
 //
 //verif:harness prop=C12 unwind=300 timeout=900
@@ -98,10 +99,17 @@ func VerifH_C12_wfail() {
 	cl := vStartClient()
 	cl.conn.w.failAt = failAt
 	a := cl.request("GET", "/a", nil)
-	b := cl.request("POST", "/b", []byte("body"))
+	var b *vCall
+	if vBool() {
+		b = cl.request("POST", "/b", []byte("body"))
+	} else {
+		rd := &vScriptReader{}
+		rd.n[0], rd.eof[1] = 4, true
+		b = cl.requestStream("/b", rd, 4)
+	}
 	c := cl.request("GET", "/c", nil)
 	vSettle()
-	if len(cl.conn.w.out) < failAt || !cl.c.Closed() && len(cl.conn.w.out) == failAt {
+	if !cl.conn.w.failed {
 		return // everything fitted in front of the failing byte: nothing failed
 	}
 	n := 0
